@@ -575,12 +575,19 @@ def classify_argspec(E, O, name, params, mode, kind, txt, err):
     found = []
     variant = "ref" if mode == "ref->real" else "real"
     for k, vals in params.items():
-        kind1, txt1, err1, _got = argspec_rt(E, "n", {"k": vals}, mode)
-        if kind1 == "ok":
+        if argspec_rt(E, "n", {"k": vals}, mode)[0] == "ok":
             continue
-        k1 = "parse-error" if kind1 == "ref-parse-error" else kind1
-        for key in classify_value(E, None, vals, variant, k1, None, err1, False):
-            found.append((key, f"ArgSpec value {vals!r:.80} ({mode}): {kind1}; text {txt1!r:.160}"))
+        # isolate the elements of this value; fall back to the whole value if every element passes alone
+        singles = [(x,) for x in vals] if len(vals) > 1 else []
+        culprits = [v1 for v1 in singles if argspec_rt(E, "n", {"k": v1}, mode)[0] != "ok"] or [vals]
+        seen = set()
+        for v1 in culprits:
+            kind1, txt1, err1, _got = argspec_rt(E, "n", {"k": v1}, mode)
+            k1 = "parse-error" if kind1 == "ref-parse-error" else kind1
+            for key in classify_value(E, None, v1, variant, k1, None, err1, False):
+                if key not in seen:
+                    seen.add(key)
+                    found.append((key, f"ArgSpec value {v1!r:.80} ({mode}): {kind1}; text {txt1!r:.160}"))
     if not found:
         found.append((f"argspec:{kind.split(':')[0]}:not-attributable-to-one-value",
                       f"ArgSpec {txt!r:.200} ({mode}) {kind}"))
